@@ -244,6 +244,17 @@ class State:
                         r = getattr(p, s["q"])()
                     except RuntimeError:
                         r = None  # repeated lineshape settings: an error both times
+                elif kind == "failing":
+                    # calls that are refused: they must leave nothing behind
+                    for call in (lambda: p.list_decay_modes("no-such-particle~"), lambda: p.build_decay_chains("no-such-particle~"),
+                                 lambda: p.expand_decay_modes("no-such-particle~"), lambda: p.print_decay_modes(mo or "x", normalize=True, scale=0.5),
+                                 lambda: p.print_decay_modes(mo or "x", scale=7.0), lambda: p.list_decay_modes("no-such-name", pdg_name=True)):
+                        try:
+                            with contextlib.redirect_stdout(io.StringIO()):
+                                call()
+                        except Exception:  # noqa: BLE001 -- the refusal itself is what is expected here
+                            pass
+                    r = None
                 elif kind == "photos":
                     r = p.global_photos_flag()
                 elif kind == "repr":
@@ -378,6 +389,10 @@ def make_machine(rec, shrink_budget_s=40.0):
         @rule()
         def photos(self):
             self._do({"op": "photos"})
+
+        @rule(m=st.integers(0, 9))
+        def failing_calls(self, m):
+            self._do({"op": "failing", "m": m})
 
         @rule()
         def rep(self):
